@@ -184,7 +184,7 @@ Definition dec_zero : list N := [48%N].
 Definition dec_str (ds : list N) : bytes := rev ds.
 
 (* kfArrayFor: cond and incr see {0} = current value, {1} = index.  The builder is kept as a
-   reversed list of chunks.  [fuel] = MAX_ITERATIONS + 1 rounds: round idx runs for idx <= MAX.
+   reversed list of chunks (rev_append: List.rev is quadratic).  [fuel] = MAX_ITERATIONS + 1 rounds: round idx runs for idx <= MAX.
    [first] is idx = 0 (repaired separator rule: "if idx > 0"). *)
 Fixpoint for_loop (fuel : nat) (cond incr : bytes -> bytes -> bytes) (val : bytes) (idx : list N)
                   (first : bool) (chunks : list bytes) : bytes :=
@@ -195,7 +195,7 @@ Fixpoint for_loop (fuel : nat) (cond incr : bytes -> bytes -> bytes) (val : byte
       if truthy (cond val sIdx) then
         for_loop f cond incr (incr val sIdx) (dec_succ idx) false
                  (val :: (if first then chunks else [NUL] :: chunks))
-      else concat (rev chunks)
+      else concat (rev_append chunks [])
   end.
 Definition op_for (cap : nat) (cond incr : bytes -> bytes -> bytes) (start : bytes) : bytes :=
   for_loop (S cap) cond incr start dec_zero true [].
